@@ -4,7 +4,7 @@ CFG = dict(
     imports=["From Verif.Common Require Import Labels Prefix.", "From Verif.C04 Require Import Model Spec."],
     checker="check_case",
     deps=["C36"],
-    n=dict(quick=128, thorough=12000),
+    n=dict(quick=128, thorough=1536),
     shard=16,
     rule="histories of 10-40 operations (UpdateIPSet / DeleteIPSet / workload, host endpoint and network set updates "
          "through OnUpdate / raw UpdateEndpointOrSet / DeleteEndpoint / profile label updates and deletes) on the real "
